@@ -112,3 +112,231 @@ Theorem C06_load_h_clean_failure :
 Proof. exact load_h_clean_failure. Qed.
 Print Assumptions C06_load_h_clean_failure.
 
+(* ---- the third layer of client calls (HHist3.v) under allocation failure.  One-block constructors
+   (cbor_new_int8..64, cbor_new_float2/4/8, cbor_new_ctrl, cbor_build_bool, cbor_new_null / cbor_new_undef):
+   a NULL result means the one request was refused; the heap is then cell for cell what it was, the bump
+   pointer has not moved (nothing was allocated, so nothing can have leaked), and the client's accounting
+   invariant holds unchanged.  cbor_build_string: two requests, clean_failure as for cbor_build_stringn.
+   The idioms f(.., cbor_move(x)) whose allocation (growth of the container, the tag) is refused: the failure
+   value (false / NULL); every cell is what it was except the count of x, which cbor_move lowered by one
+   BEFORE the call (documented behaviour of cbor_move: the callee did not take its reference); nothing
+   allocated; and the accounting is exact when x has another reference.  For every allocator oracle. ---- *)
+From CB Require Import HHist HHist_proofs HHist2 HHist3 HHist3_proofs.
+Local Open Scope N_scope.
+
+Theorem C06_new_int_refusal : forall refuse s own ownd w iw s' w',
+  Inv own ownd [] w -> caps w -> new_int refuse s iw w = Ret (s', Out (OutHandle false)) w' ->
+  refuse (nreq w) (SZ_ITEM + iw_bytes iw) = true /\ s' = mkcs3 (hpush (base s) None) (unset s) /\
+  heap w' = heap w /\ next w' = next w /\ trace w' = EvMalloc (SZ_ITEM + iw_bytes iw) None :: trace w /\
+  Inv own ownd [] w'.
+Proof. exact new_int_refusal. Qed.
+Print Assumptions C06_new_int_refusal.
+
+Theorem C06_new_float_refusal : forall refuse s own ownd w fw s' w',
+  Inv own ownd [] w -> caps w -> new_float refuse s fw w = Ret (s', Out (OutHandle false)) w' ->
+  refuse (nreq w) (SZ_ITEM + fw_bytes fw) = true /\ s' = mkcs3 (hpush (base s) None) (unset s) /\
+  heap w' = heap w /\ next w' = next w /\ trace w' = EvMalloc (SZ_ITEM + fw_bytes fw) None :: trace w /\
+  Inv own ownd [] w'.
+Proof. exact new_float_refusal. Qed.
+Print Assumptions C06_new_float_refusal.
+
+Theorem C06_new_ctrl_refusal : forall refuse s own ownd w s' w',
+  Inv own ownd [] w -> caps w -> new_ctrl refuse s w = Ret (s', Out (OutHandle false)) w' ->
+  refuse (nreq w) SZ_ITEM = true /\ s' = mkcs3 (hpush (base s) None) (unset s) /\
+  heap w' = heap w /\ next w' = next w /\ Inv own ownd [] w'.
+Proof. exact new_ctrl_refusal. Qed.
+Print Assumptions C06_new_ctrl_refusal.
+
+Theorem C06_build_bool_refusal : forall refuse s own ownd w b s' w',
+  Inv own ownd [] w -> caps w -> build_bool refuse s b w = Ret (s', Out (OutHandle false)) w' ->
+  refuse (nreq w) SZ_ITEM = true /\ s' = mkcs3 (hpush (base s) None) (unset s) /\
+  heap w' = heap w /\ next w' = next w /\ Inv own ownd [] w'.
+Proof. exact build_bool_refusal. Qed.
+Print Assumptions C06_build_bool_refusal.
+
+(* cbor_new_null (v = 22) / cbor_new_undef (v = 23) *)
+Theorem C06_new_null_undef_refusal : forall refuse s own ownd w v s' w',
+  Inv own ownd [] w -> caps w -> new_ctrl_set refuse s v w = Ret (s', Out (OutHandle false)) w' ->
+  refuse (nreq w) SZ_ITEM = true /\ s' = mkcs3 (hpush (base s) None) (unset s) /\
+  heap w' = heap w /\ next w' = next w /\ Inv own ownd [] w'.
+Proof. exact new_ctrl_set_refusal. Qed.
+Print Assumptions C06_new_null_undef_refusal.
+
+Theorem C06_build_string0_refusal : forall refuse s bytes w s' w',
+  HCont_proofs.wf w -> build_string0 refuse s bytes w = Ret (s', Out (OutHandle false)) w' ->
+  s' = mkcs3 (hpush (base s) None) (unset s) /\ clean_failure refuse false SZ_ITEM w w'.
+Proof. exact build_string0_refusal. Qed.
+Print Assumptions C06_build_string0_refusal.
+
+(* cbor_array_push(a, cbor_move(x)), growth of the indefinite array refused *)
+Theorem C06_push_move_refused : forall refuse s own ownd w a x p q rc d c l rcq nq c' bytes,
+  Inv own ownd [] w -> caps w ->
+  hget (base s) a = Some p -> hget (base s) x = Some q -> is_set s x = true -> 0 < own q -> p <> q ->
+  heap w p = Some (CItem rc (NArr true d c l)) -> heap w q = Some (CItem rcq nq) -> rcq < W64 ->
+  c <= len l -> grow_req SZ_PTR c = Some (c', bytes) -> refuse (nreq w) bytes = true ->
+  exists w', push_move refuse s a x w = Ret (s, Out (OutBool false)) w' /\
+    (forall b, heap w' b = upd (heap w) q (Some (CItem (rcq - 1) nq)) b) /\ next w' = next w /\
+    (1 < rcq -> Inv (own_dec own q) ownd [] w').
+Proof. exact push_move_refused. Qed.
+Print Assumptions C06_push_move_refused.
+
+(* ... and whatever made the push fail (also a full definite array): the outcome form *)
+Theorem C06_push_move_outcome : forall refuse s own ownd w a x p q rc indef d c l rcq nq,
+  Inv own ownd [] w -> caps w ->
+  hget (base s) a = Some p -> hget (base s) x = Some q -> is_set s x = true ->
+  0 < own q -> p <> q ->
+  heap w p = Some (CItem rc (NArr indef d c l)) -> heap w q = Some (CItem rcq nq) -> rcq < W64 ->
+  exists ok w', push_move refuse s a x w = Ret (s, Out (OutBool ok)) w' /\
+    (ok = true -> Inv (own_dec own q) ownd [] w') /\
+    (ok = false ->
+       (forall b, heap w' b = upd (heap w) q (Some (CItem (rcq - 1) nq)) b) /\ next w' = next w /\
+       (1 < rcq -> Inv (own_dec own q) ownd [] w')).
+Proof. exact push_move_step. Qed.
+Print Assumptions C06_push_move_outcome.
+
+(* cbor_map_add(m, {cbor_move(k), cbor_move(v)}), growth of the indefinite map refused (k and v may be the
+   same item: then its count is two lower) *)
+Theorem C06_map_add_move_refused : forall refuse s own ownd w m k v p q r rc d c l rcq nq rcr nr c' bytes,
+  Inv own ownd [] w -> caps w ->
+  hget (base s) m = Some p -> hget (base s) k = Some q -> hget (base s) v = Some r ->
+  is_set s k = true -> is_set s v = true ->
+  0 < own q -> 0 < own r -> (q = r -> 1 < own q) -> p <> q -> p <> r ->
+  heap w p = Some (CItem rc (NMap true d c l)) ->
+  heap w q = Some (CItem rcq nq) -> heap w r = Some (CItem rcr nr) -> rcq < W64 -> rcr < W64 ->
+  c <= len l -> grow_req SZ_PAIR c = Some (c', bytes) -> refuse (nreq w) bytes = true ->
+  exists w', map_add_move refuse s m k v w = Ret (s, Out (OutBool false)) w' /\
+    next w' = next w /\ (forall b, b <> q -> b <> r -> heap w' b = heap w b) /\
+    (1 < rcq -> 1 < rcr -> (q = r -> 2 < rcq) -> Inv (own_dec (own_dec own q) r) ownd [] w').
+Proof. exact map_add_move_refused. Qed.
+Print Assumptions C06_map_add_move_refused.
+
+(* cbor_build_tag(v, cbor_move(x)), the tag's request refused *)
+Theorem C06_build_tag_move_refused : forall refuse s own ownd w v x q rcq nq,
+  Inv own ownd [] w -> hget (base s) x = Some q -> is_set s x = true ->
+  0 < own q -> heap w q = Some (CItem rcq nq) -> rcq < W64 -> refuse (nreq w) SZ_ITEM = true ->
+  exists w', build_tag_move refuse s v x w = Ret (mkcs3 (hpush (base s) None) (unset s), Out (OutHandle false)) w' /\
+    (forall b, heap w' b = upd (heap w) q (Some (CItem (rcq - 1) nq)) b) /\ next w' = next w /\
+    (1 < rcq -> Inv (own_dec own q) ownd [] w').
+Proof. exact build_tag_move_refused. Qed.
+Print Assumptions C06_build_tag_move_refused.
+
+(* non-vacuity: with the third request refused, cbor_new_float8 returns NULL and the later calls are
+   unaffected ([ex3_refused]); the growth of an indefinite array / map under the idiom is refused: false,
+   the container untouched, the moved count one / two lower, nothing allocated *)
+Example C06_layer3_nonvacuous :
+  match run_hist3 (fun i _ => i =? 2) 8
+          [O3Old ONewIndefArray; O3Old (OBuildInt false I8 7); O3Old (OIncref 1); O3PushMove 0 1]%nat s3_0 [] world0 with
+  | Ret (s', outs) w' =>
+      outs = [Out (OutHandle true); Out (OutHandle true); Out OutUnit; Out (OutBool false)] /\
+      map (heap w') [1; 2; 3] = [Some (CItem 1 (NArr true None 0 [])); Some (CItem 1 (NInt false I8 7)); None] /\
+      trace w' = [EvRealloc None 8 None; EvMalloc 49 (Some 2); EvMalloc 48 (Some 1)]
+  | Fault _ => False
+  end /\
+  match run_hist3 (fun i _ => i =? 2) 8
+          [O3Old (OBuildInt false I8 7); O3NewInt I16; O3NewFloat F64; O3NewCtrl; O3BuildTagMove 9 0]%nat s3_0 [] world0 with
+  | Ret (s', outs) w' =>
+      outs = [Out (OutHandle true); Out (OutHandle true); Out (OutHandle false); Out (OutHandle true); Out (OutHandle true)] /\
+      heap w' 5 = None /\ live_count w' = 4
+  | Fault _ => False
+  end.
+Proof. split; vm_compute; repeat split. Qed.
+(* ---- atomicity of failure, uniformly over all 26 client operations (theories/HAtomic_proofs.v) ----
+   failed o out: [out] is the documented failure value of operation [o]:
+     NULL (OutHandle false)  for every call that creates or returns an item - the ten constructors,
+                             build_tag, array_get (index out of range), tag_item, copy;
+     false (OutBool false)   for push / set / replace / map_add / add_chunk;
+     an error (OutLoadErr)   for load - any code: malformed, truncated, nesting limit, out of memory;
+     0 bytes (OutBytes 0 _)  for serialize (buffer too small) and serialize_alloc (refused);
+     0 (OutNum 0)            for serialized_size.
+   table_grows_null s s': the client's handle table is unchanged or has gained one NULL slot.
+   The failures covered are allocation failures at ANY request of the call (also in the middle of
+   cbor_copy and cbor_load, after other blocks have been obtained) and the failures that have nothing
+   to do with memory (definite container full, index out of range, size guard, malformed input,
+   buffer too small).  No operation is excepted. *)
+From CB Require Import HHist HHist_proofs HStepInv_proofs HAtomic_proofs.
+From Coq Require Import List NArith.
+Import ListNotations.
+Local Open Scope N_scope.
+
+Theorem C06_failure_values : forall o r, failed o r =
+  match o, r with
+  | (OBuildInt _ _ _ | OBuildFloat _ _ | OBuildCtrl _ | OBuildString _ _ | ONewIndefString _
+     | ONewDefArray _ | ONewIndefArray | ONewDefMap _ | ONewIndefMap | ONewTag _
+     | OBuildTag _ _ | OGet _ _ | OTagItem _ | OCopy _), OutHandle false => true
+  | (OPush _ _ | OSet _ _ _ | OReplace _ _ _ | OMapAdd _ _ _ | OAddChunk _ _), OutBool false => true
+  | OLoad _, OutLoadErr _ _ => true
+  | (OSerialize _ _ | OSerAlloc _), OutBytes N0 _ => true
+  | OSerSize _, OutNum N0 => true
+  | _, _ => false
+  end.
+Proof. intros. reflexivity. Qed.
+
+(* for every allocator oracle, nesting limit, client state, world satisfying the accounting
+   invariant, and legal call: if the call returns its failure value then (i) every live cell has the
+   same contents - node, reference count, everything; (ii) nothing stays allocated; (iii) the handle
+   table gains at most a NULL slot; (iv) the accounting invariant holds with the same ownership;
+   (i) and (ii) together: the heap is cell for cell what it was *)
+Theorem C06_step_atomic : forall refuse L s own ownd w o s' r w',
+  Inv own ownd [] w -> legal s own w o ->
+  step refuse L s o w = Ret (s', r) w' -> failed o r = true ->
+  (forall b, heap w b <> None -> heap w' b = heap w b) /\
+  (forall b, heap w' b <> None -> heap w b <> None) /\
+  table_grows_null s s' /\
+  Inv own ownd [] w' /\
+  (forall b, heap w' b = heap w b) /\ next w <= next w'.
+Proof. exact HAtomic_proofs.C06_step_atomic. Qed.
+Print Assumptions C06_step_atomic.
+
+(* with C04_step: a legal call never faults - it succeeds or fails atomically *)
+Theorem C06_step_total_atomic : forall refuse L s own ownd w o,
+  Inv own ownd [] w -> caps w -> legal s own w o ->
+  exists s' r w', step refuse L s o w = Ret (s', r) w' /\
+    (failed o r = true -> (forall b, heap w' b = heap w b) /\ table_grows_null s s' /\ Inv own ownd [] w').
+Proof. exact HAtomic_proofs.C06_step_total_atomic. Qed.
+Print Assumptions C06_step_total_atomic.
+
+(* histories: at any point of any legal history from the empty world, a call that reports failure
+   leaves the live heap exactly as it was *)
+Theorem C06_history_atomic : forall refuse L pre o rest s outs w s' r w',
+  legal_history refuse L (pre ++ o :: rest) s0 own0 world0 ->
+  run_hist refuse L pre s0 [] world0 = Ret (s, outs) w ->
+  step refuse L s o w = Ret (s', r) w' -> failed o r = true ->
+  (forall b, heap w' b = heap w b) /\ live_count w' = live_count w /\ table_grows_null s s' /\
+  Inv (own_hist refuse L pre s0 own0 world0) own0 [] w'.
+Proof. exact HAtomic_proofs.C06_history_atomic. Qed.
+Print Assumptions C06_history_atomic.
+
+(* the failing returns of the container calls need no hypothesis at all (found by inversion of the
+   code); cbor_map_add cannot fail once the key is stored *)
+Theorem C06_container_failures : forall refuse,
+  (forall a x w w', array_push refuse a x w = Ret false w' -> heap w' = heap w /\ next w' = next w) /\
+  (forall a i x w w', array_set refuse a i x w = Ret false w' -> heap w' = heap w /\ next w' = next w) /\
+  (forall a i x w w', array_replace a i x w = Ret false w' -> heap w' = heap w /\ next w' = next w) /\
+  (forall a i w w', array_get a i w = Ret None w' -> heap w' = heap w /\ next w' = next w) /\
+  (forall a k v w w', map_add refuse a k v w = Ret false w' -> heap w' = heap w /\ next w' = next w) /\
+  (forall a v w b w', map_add_value a v w = Ret b w' -> b = true) /\
+  (forall a x w w', add_chunk refuse a x w = Ret false w' -> heap w' = heap w /\ next w' = next w).
+Proof.
+  intros refuse. split; [apply array_push_false|]. split; [apply array_set_false|]. split; [apply array_replace_false|].
+  split; [apply array_get_none|]. split; [apply map_add_false|]. split; [apply map_add_value_true|apply add_chunk_false].
+Qed.
+Print Assumptions C06_container_failures.
+
+(* non-vacuity: one legal history (ex06_legal) with nine failing calls of nine kinds - definite array
+   full, get out of range, copy refused mid-way, load of a truncated array after two items were
+   built, serialize into too small a buffer, set beyond the end, replace out of range, load refused
+   mid-way, size guard of a definite map after its item was obtained.  Per call: failure value?,
+   addresses 0..16 live exactly as before?, live blocks afterwards. *)
+Example C06_example_table :
+  atomic_table ex06_refuse 8 ex06_ops s0 world0 =
+    [(false, false, 2); (false, false, 3); (false, true, 3);
+     (true, true, 3); (true, true, 3); (true, true, 3); (true, true, 3); (true, true, 3);
+     (true, true, 3); (true, true, 3); (true, true, 3); (true, true, 3);
+     (false, false, 4)].
+Proof. vm_compute. reflexivity. Qed.
+Example C06_example_applies : forall s outs w s' r w',
+  run_hist ex06_refuse 8 (firstn 5 ex06_ops) s0 [] world0 = Ret (s, outs) w ->
+  step ex06_refuse 8 s (OCopy 0) w = Ret (s', r) w' -> failed (OCopy 0) r = true ->
+  (forall b, heap w' b = heap w b) /\ live_count w' = live_count w /\ table_grows_null s s'.
+Proof. exact ex06_copy_atomic. Qed.
+
